@@ -21,18 +21,32 @@
    if then else | iflet y x then else (if let y <- x) | while body | for body | break | continue |
    return [x] | panic | fun name params body (nested function: analysed as its own entry point).
 
-   Named deviation variants (DESIGN section 7, #9 and #10) -- used ONLY to classify a
-   disagreement between the exact oracle and the real checker as a known finding:
-     DevLoopOnce    a loop body is executed at most once (the real checker analyses loop
-                    bodies once); explains unsound ACCEPTS whose only bad paths need a
-                    second iteration and whose remaining loss report is hidden by a halt.
-     DevJumpNoExit  panic / break / continue inside an if-branch do not cut the path: the
-                    path continues after the if statement with the invalidations made so
-                    far (the real checker treats only `return` as an exit when it merges
-                    branches); explains REJECTIONS of programs whose every real path is fine. *)
+   Named deviation variants -- used ONLY to classify a disagreement between the exact oracle
+   (dev = {}) and the real checker as a known finding; `dev` is a SET of deviation names:
+     DevLoopOnce         a loop body is executed at most once (the real checker analyses loop
+                         bodies once); explains unsound ACCEPTS whose only bad paths need a
+                         second iteration and whose remaining loss report is hidden by a halt
+                         (DESIGN section 7 #9).
+     DevForceAssignInvalid  `x <-! y` does not look at the status of x: a moved/destroyed x is
+                         not reported and stays invalid, the value moved into it is forgotten.
+     DevReturnAfterJump  a break/continue taken inside an if-branch whose last statement is a
+                         `return` forgets every invalidation made since that branch was entered
+                         (the real checker marks the branch "definitely returned" and drops its
+                         invalidations at the merge although the jumping path does not return).
+     DevJumpNoExit       exits inside an if-branch do not cut the path where branches merge:
+                         after panic / break / continue / return (the latter three after their
+                         own loss check) the path goes on after the if statement with the
+                         invalidations made so far, and an if statement whose branches all exit
+                         may be skipped as a whole; after a break/continue has been passed this way
+                         every later invalidation in that loop iteration is only potential (the
+                         path on which the variable stays valid exists too); inside a loop a panic does not even suppress
+                         the loss report of its block; explains REJECTIONS of programs whose every
+                         real path is fine (DESIGN section 7 #10: the real checker cuts a branch
+                         at a merge only when it definitely returns, forgets invalidations of
+                         nested all-returning ifs, and invents one for return/halt siblings). *)
 EXTENDS Naturals, Sequences, FiniteSets, TLC, Json
 
-CONSTANT Devs          \* subset of {"exact", "DevLoopOnce", "DevJumpNoExit"}
+CONSTANT Devs          \* the set of variants to explore; each variant is a set of deviation names ({} = exact)
 
 Progs == ndJsonDeserialize("progs.ndjson")
 
@@ -42,8 +56,12 @@ vars == <<p, dev, k, env, bad, done>>
 \* A program is flattened by the generator: Progs[p].blocks[b] is the statement sequence of block b
 \* (block 1 = the body of the function under analysis); compound statements name their blocks by number.
 \* frame: b = block, pc = index of the next statement, kind in {"fun","block","loop"}, decl = variables
-\* declared in this frame, adv = TRUE when the enclosing frame has already moved past the loop statement
-Frame(b, kind, decl, adv) == [b |-> b, pc |-> 1, kind |-> kind, decl |-> decl, adv |-> adv]
+\* declared in this frame, adv = TRUE when the enclosing frame has already moved past the loop statement,
+\* e0 = status map at entry (recorded only under DevReturnAfterJump), j = a break/continue was passed
+\* without being taken in this loop iteration (only under DevJumpNoExit)
+Frame(b, kind, decl, adv) == [b |-> b, pc |-> 1, kind |-> kind, decl |-> decl, adv |-> adv, j |-> FALSE,
+                              e0 |-> IF "DevReturnAfterJump" \in dev THEN env ELSE << >>]
+Dev(d) == d \in dev
 Top == k[Len(k)]
 Block(f) == Progs[p].blocks[f.b]
 AtEnd(f) == f.pc > Len(Block(f))
@@ -59,6 +77,17 @@ DeclsFrom(i) == UNION {k[j].decl : j \in i..Len(k)}
 LoopIdx == CHOOSE i \in 1..Len(k) : k[i].kind = "loop" /\ \A j \in (i+1)..Len(k) : k[j].kind # "loop"
 InLoop == \E i \in 1..Len(k) : k[i].kind = "loop"
 
+\* static shape of a block: every path through it ends in an exit / in a return
+RECURSIVE ExitsB(_), RetB(_)
+ExitsB(b) == LET B == Progs[p].blocks[b] IN
+             /\ Len(B) > 0
+             /\ LET s == B[Len(B)] IN \/ s.t \in {"break", "continue", "return", "panic"}
+                                      \/ (s.t \in {"if", "iflet"} /\ ExitsB(s.then) /\ ExitsB(s.else))
+RetB(b) == LET B == Progs[p].blocks[b] IN
+           /\ Len(B) > 0
+           /\ LET s == B[Len(B)] IN \/ s.t = "return"
+                                    \/ (s.t \in {"if", "iflet"} /\ RetB(s.then) /\ RetB(s.else))
+
 \* move every variable of xs in order; ok = FALSE as soon as one is not valid (double move)
 RECURSIVE MoveAll(_, _)
 MoveAll(e, xs) == IF xs = << >> THEN [ok |-> TRUE, e |-> e]
@@ -67,13 +96,20 @@ MoveAll(e, xs) == IF xs = << >> THEN [ok |-> TRUE, e |-> e]
 
 Init == /\ p \in 1..Len(Progs)
         /\ dev \in Devs
-        /\ k = <<Frame(1, "fun", {}, FALSE)>>
+        /\ k = <<[b |-> 1, pc |-> 1, kind |-> "fun", decl |-> {}, adv |-> FALSE, j |-> FALSE, e0 |-> << >>]>>
         /\ env = << >> /\ bad = FALSE /\ done = FALSE
 
 \* all final states of a program collapse into one (per verdict): the continuation is dropped
 Stop(b) == /\ bad' = b /\ done' = TRUE /\ k' = << >> /\ env' = << >> /\ UNCHANGED <<p, dev>>
 
 Cont(k2, e2) == k' = k2 /\ env' = e2 /\ UNCHANGED <<p, dev, bad, done>>
+
+\* DevJumpNoExit: once a break/continue has been passed in this loop iteration, an invalidation is only
+\* "potential": the path on which the variables xs stay valid is explored as well
+MayKeep == "DevJumpNoExit" \in dev /\ InLoop /\ k[LoopIdx].j
+ContInv(k2, e2, xs) == \/ Cont(k2, e2)
+                       \/ MayKeep /\ Cont(k2, [y \in DOMAIN e2 |-> IF y \in xs THEN "valid" ELSE e2[y]])
+Range(sq) == {sq[i] : i \in DOMAIN sq}
 
 SetTop(f)   == [k EXCEPT ![Len(k)] = f]
 Rest(f)     == [f EXCEPT !.pc = @ + 1]
@@ -92,12 +128,19 @@ Fallthrough ==
 Jump(brk) ==
   LET i == LoopIdx IN
   IF LostFrom(i) THEN Stop(TRUE)
-  ELSE LET kk == PopTo(i) IN
-       Cont(IF brk /\ ~k[i].adv THEN AdvanceAt(kk) ELSE kk, Unbind(env, DeclsFrom(i)))
+  ELSE LET kk == PopTo(i)
+           e1 == Unbind(env, DeclsFrom(i))
+           \* deviation: the outermost enclosing if-branch (inside the loop) that ends in `return`
+           rs == {j \in (i+1)..Len(k) : k[j].kind = "block" /\ RetB(k[j].b)}
+           e2 == IF Dev("DevReturnAfterJump") /\ rs # {}
+                 THEN LET j == CHOOSE x \in rs : \A y \in rs : x <= y IN
+                      [x \in DOMAIN e1 |-> IF x \in DOMAIN k[j].e0 THEN k[j].e0[x] ELSE e1[x]]
+                 ELSE e1
+       IN Cont(IF brk /\ ~k[i].adv THEN AdvanceAt(kk) ELSE kk, e2)
 
 Loop(st) ==
   \/ Cont(Advance, env)                                               \* condition false / no more elements
-  \/ IF dev = "DevLoopOnce"
+  \/ IF Dev("DevLoopOnce")
      THEN Cont(Append(Advance, Frame(st.body, "loop", {}, TRUE)), env) \* at most one iteration
      ELSE Cont(Append(k, Frame(st.body, "loop", {}, FALSE)), env)      \* the loop statement stays at the head
 
@@ -107,47 +150,60 @@ Exec(st) ==
     [] st.t = "move" ->
          LET m == MoveAll(env, st.ys) IN
          IF ~m.ok THEN Stop(TRUE)
-         ELSE Cont(SetTop(DeclIn(Rest(Top), st.x)), Bind(m.e, st.x, "valid"))
+         ELSE ContInv(SetTop(DeclIn(Rest(Top), st.x)), Bind(m.e, st.x, "valid"), Range(st.ys))
     [] st.t = "take" ->
          IF ~Valid(st.x) THEN Stop(TRUE)
          ELSE Cont(SetTop(DeclIn(Rest(Top), st.z)), Bind(env, st.z, "valid"))
     [] st.t \in {"destroy", "consume"} ->
-         IF ~Valid(st.x) THEN Stop(TRUE) ELSE Cont(Advance, Bind(env, st.x, "invalid"))
+         IF ~Valid(st.x) THEN Stop(TRUE) ELSE ContInv(Advance, Bind(env, st.x, "invalid"), {st.x})
     [] st.t = "call" ->
          LET m == MoveAll(env, st.ys) IN
-         IF ~m.ok THEN Stop(TRUE) ELSE Cont(Advance, m.e)
+         IF ~m.ok THEN Stop(TRUE) ELSE ContInv(Advance, m.e, Range(st.ys))
     [] st.t = "use" ->
          IF ~Valid(st.x) THEN Stop(TRUE) ELSE Cont(Advance, env)
     [] st.t = "swap" ->
          IF ~Valid(st.x) \/ ~Valid(st.y) THEN Stop(TRUE) ELSE Cont(Advance, env)
     [] st.t \in {"append", "fassign"} ->          \* the target is used, the value is moved into it
-         IF ~Valid(st.x) \/ ~Valid(st.y) THEN Stop(TRUE) ELSE Cont(Advance, Bind(env, st.y, "invalid"))
+         IF st.t = "fassign" /\ Dev("DevForceAssignInvalid")
+         THEN IF ~Valid(st.y) THEN Stop(TRUE) ELSE Cont(Advance, Bind(env, st.y, "invalid"))
+         ELSE IF ~Valid(st.x) \/ ~Valid(st.y) THEN Stop(TRUE) ELSE ContInv(Advance, Bind(env, st.y, "invalid"), {st.y})
     [] st.t = "assign" -> Stop(TRUE)              \* would overwrite: never allowed on a resource variable
     [] st.t = "shift" ->                          \* var z <- x <- y : x's old value goes to z, y's value to x
          IF ~Valid(st.x) \/ ~Valid(st.y) THEN Stop(TRUE)
-         ELSE Cont(SetTop(DeclIn(Rest(Top), st.z)), Bind(Bind(env, st.y, "invalid"), st.z, "valid"))
+         ELSE ContInv(SetTop(DeclIn(Rest(Top), st.z)), Bind(Bind(env, st.y, "invalid"), st.z, "valid"), {st.y})
     [] st.t = "if" ->
-         \E br \in {st.then, st.else} : Cont(Append(Advance, Frame(br, "block", {}, FALSE)), env)
+         \/ \E br \in {st.then, st.else} : Cont(Append(Advance, Frame(br, "block", {}, FALSE)), env)
+         \/ Dev("DevJumpNoExit") /\ ExitsB(st.then) /\ ExitsB(st.else) /\ Cont(Advance, env)
     [] st.t = "iflet" ->                          \* the optional is moved by the test, whatever it holds
          IF ~Valid(st.x) THEN Stop(TRUE)
-         ELSE \/ Cont(Append(Advance, Frame(st.then, "block", {st.y}, FALSE)),
-                      Bind(Bind(env, st.x, "invalid"), st.y, "valid"))
-              \/ Cont(Append(Advance, Frame(st.else, "block", {}, FALSE)), Bind(env, st.x, "invalid"))
+         ELSE LET e1 == Bind(env, st.x, "invalid")
+                  E0(f) == [f EXCEPT !.e0 = IF Dev("DevReturnAfterJump") THEN e1 ELSE << >>] IN
+              \/ Cont(Append(Advance, E0(Frame(st.then, "block", {st.y}, FALSE))), Bind(e1, st.y, "valid"))
+              \/ Cont(Append(Advance, E0(Frame(st.else, "block", {}, FALSE))), e1)
+              \/ Dev("DevJumpNoExit") /\ ExitsB(st.then) /\ ExitsB(st.else)
+                    /\ Cont(Advance, Bind(env, st.x, "invalid"))
     [] st.t \in {"while", "for"} -> Loop(st)
     [] st.t \in {"break", "continue"} ->
-         IF dev = "DevJumpNoExit" /\ Top.kind = "block"
-         THEN Fallthrough                          \* deviation: the branch just ends
+         IF Dev("DevJumpNoExit") /\ Top.kind = "block"
+         THEN IF Lost(Top) THEN Stop(TRUE)         \* deviation: the branch just ends (and the jump is remembered)
+              ELSE Cont([PopTo(Len(k)) EXCEPT ![LoopIdx].j = TRUE], Unbind(env, Top.decl))
          ELSE Jump(st.t = "break")
     [] st.t = "return" ->
          IF st.x # "" /\ ~Valid(st.x) THEN Stop(TRUE)
-         ELSE Stop(\E j \in 1..Len(k) : \E v \in k[j].decl : v # st.x /\ Valid(v))
+         ELSE IF st.x # "" /\ MayKeep THEN Stop(TRUE)     \* deviation: the returned variable's move is only potential
+         ELSE IF \E j \in 1..Len(k) : \E v \in k[j].decl : v # st.x /\ Valid(v) THEN Stop(TRUE)
+         ELSE IF Dev("DevJumpNoExit") /\ Top.kind = "block"
+              THEN Cont(PopTo(Len(k)), Unbind(env, Top.decl))   \* deviation: the path goes on after the if
+              ELSE Stop(FALSE)
     [] st.t = "panic" ->
-         IF dev = "DevJumpNoExit" /\ Len(k) > 1
-         THEN Cont(PopTo(Len(k)), Unbind(env, Top.decl))   \* deviation: the path goes on after the block
+         IF Dev("DevJumpNoExit") /\ Len(k) > 1
+         THEN IF InLoop THEN Fallthrough                   \* deviation: inside a loop not even the loss report is suppressed
+              ELSE Cont(PopTo(Len(k)), Unbind(env, Top.decl))   \* deviation: the path goes on after the block
          ELSE Stop(FALSE)                                  \* halting loses nothing
     [] st.t = "fun" ->
          \/ Cont(Advance, env)                             \* the declaration itself does nothing
-         \/ Cont(<<Frame(st.body, "fun", {q.x : q \in {st.params[i] : i \in DOMAIN st.params}}, FALSE)>>,
+         \/ Cont(<<[b |-> st.body, pc |-> 1, kind |-> "fun", adv |-> FALSE, j |-> FALSE, e0 |-> << >>,
+                    decl |-> {st.params[i].x : i \in DOMAIN st.params}]>>,
                  [x \in {st.params[i].x : i \in DOMAIN st.params} |-> "valid"])   \* its body is an entry point
 
 Step == /\ ~done
